@@ -326,7 +326,11 @@ def step (s : State) (toks : List String) : State × String :=
     -- a write through the view changes exactly the designated cell of the leaf
     match s.expr, s.view, rS.toNat?, cS.toNat? with
     | some e, some v, some r, some c =>
-      (s, both (match e.cell r c with | some i => s!"changed={i}" | none => "none")
+      -- specification: `MExpr.write` on the source data `0..n` with a fresh value, then compare
+      let n := e.dataLen
+      let after := e.write (List.range n) r c n
+      let ch := (List.range n).filter fun k => after.getD k 0 != k
+      (s, both (if ch.isEmpty then "none" else "changed=" ++ ",".intercalate (ch.map toString))
                (match v.view.get r c with
                 | .ok (some i) => s!"changed={i}"
                 | .ok none => "none"
